@@ -18,6 +18,7 @@ struct alw_ctl {
   int guard_code;     /* reserve PROT_NONE pages behind the library-managed (PROT_EXEC) code buffer */
   int guard_files;    /* place the bytes read from a file / mapped from a file directly in front of a PROT_NONE page */
   long failed_index; int failed_kind; /* what was failed */
+  int fail_next_kind; /* one shot, also when not armed: the next intercepted call of kind (this - 1) is refused */
   int short_read;     /* > 0: every read() delivers at most this many bytes (what pipes, network file systems and signals do) */
   int tight_code;     /* the library-managed code buffer ENDS directly in front of an inaccessible page (its start is then not page aligned), on creation and after every growth: one byte written past the buffer's length faults */
   long bad_unmap;     /* munmap calls (since the last reset by the harness) whose length reaches beyond the page-rounded length of the region the layer handed out at that address */
